@@ -493,3 +493,26 @@ func VerifHeaderParse(d []byte, p int, dl int, l int) {}
 //@     invariant [bytes] forall j int :: {opts[j].ID} 0 <= j && j < #iter ==> bytesEqOld(opts[j].Value, in[j].Value)
 //@     unfold sumLens(in, #iter + 1)
 //@     decreases len(in) - #iter
+
+// ---- lemma: whatever the decoder produced from an encoding is the encoded list -------------------
+//
+// For every K that the reference parser accepts on d (parsedOK) with output r (decodedOpts), K is the
+// number of encoded options and r equals o element by element. Universally quantified over K so that
+// callers can use it for the (existential) K of the decoder's contract.
+//
+//@ func VerifDecodedIsEncoded(d []byte, o Options, r Options, defs map[OptionID]OptionDef)
+//@   requires wfOptions(o) && legalOpts(o, defs) && optsAtNow(d, o)
+//@   requires 0 <= encLen(o, len(o)) && encLen(o, len(o)) <= len(d) && (len(d) == encLen(o, len(o)) || d[encLen(o, len(o))] == 255)
+//@   modifies nothing
+//@   ensures [unique] forall K int :: {rawStart(d, K)} K >= 0 && prefixOK(d, K) ==> K <= len(o) && (terminal(d, rawStart(d, K)) ==> K == len(o)) && (rawOK(d, K) ==> K < len(o) && nKept(d, defs, K) == K)
+//@   ensures [accepts] forall K int :: {rawStart(d, K)} K >= 0 && prefixOK(d, K) ==> (K < len(o) ==> rawOK(d, K)) && (K == len(o) ==> terminal(d, rawStart(d, K)))
+//@   ensures [consumed] forall K int :: {rawStart(d, K)} parsedOK(d, K) ==> K == len(o) && rawStart(d, K) == encLen(o, len(o))
+//@   ensures [count] forall K int :: {rawStart(d, K)} parsedOK(d, K) && decodedOpts(r, 0, d, defs, K) ==> len(r) == len(o)
+//@   ensures [ids] forall K int :: {rawStart(d, K)} parsedOK(d, K) && decodedOpts(r, 0, d, defs, K) ==> (forall j int :: {r[j].ID} 0 <= j && j < len(o) ==> rawStart(d, j) == encLen(o, j) && rawStart(d, j + 1) == encLen(o, j + 1) && r[j].ID == o[j].ID)
+//@   ensures [slices] forall K int :: {rawStart(d, K)} parsedOK(d, K) && decodedOpts(r, 0, d, defs, K) ==> (forall j int :: {r[j].ID} 0 <= j && j < len(o) ==> rawStart(d, j) == encLen(o, j) && r[j].Value == d[encLen(o, j) + 1 + hs(delta(o, j)) + hs(len(o[j].Value)) : encLen(o, j) + optSize(o, j)])
+//@   ensures [values] forall K int :: {rawStart(d, K)} parsedOK(d, K) && decodedOpts(r, 0, d, defs, K) ==> (forall j int :: {r[j].ID} 0 <= j && j < len(o) ==> rawStart(d, j) == encLen(o, j) && bytesEq(r[j].Value, o[j].Value))
+
+// VerifDecodedIsEncoded is a ghost lemma (see the contract above); it has no effect.
+func VerifDecodedIsEncoded(d []byte, o Options, r Options, defs map[OptionID]OptionDef) {
+	VerifParseOfEncoding(d, o, defs)
+}
